@@ -612,6 +612,125 @@ fn k_below_blocking() {
     core::mem::forget(sarr);
 }
 
+/// The padding predicate against the statement for ALL fractions, budgets and limits, with the
+/// packet counts case-split over every combination of small concrete values (0..=2 own paddings,
+/// 0..=2 normal packets, 0..=2 paddings of other machines): with concrete operands the two f64
+/// quotients fold to constants, so the solver decides the comparisons against the symbolic
+/// fractions (boundaries such as 1/2 vs 0.5 included) without a division circuit. (With symbolic
+/// counts the equivalence of two f64 dividers does not finish: k_below_padding, > 15 min.)
+#[kani::proof]
+#[kani::unwind(4)]
+fn k_below_padding_small() {
+    let allowed: u64 = kani::any();
+    let pf: f64 = kani::any();
+    let ff: f64 = kani::any();
+    kani::assume(real_frac(pf) && real_frac(ff));
+    let limit: u64 = kani::any();
+    let a = Action::SendPadding { bypass: kani::any(), replace: kani::any(), timeout: dummy_dist(), limit: any_opt_dist() };
+    const NT: Option<Vec<Trans>> = None;
+    let mut sarr = [state_from_parts(None, (None, None), [NT; EVENT_NUM])];
+    let machines = [one_state_machine(Some(a), &mut sarr, allowed, pf, kani::any(), 0.0)];
+    let mut ac = any_acct();
+    ac.f_pad_frac = ff;
+    let mut seen_allow_by_fracs = false;
+    let mut seen_deny_by_global = false;
+    let mut p: u64 = 0;
+    while p <= 2 {
+        let mut n: u64 = 0;
+        while n <= 2 {
+            let mut x: u64 = 0;
+            while x <= 2 {
+                ac.m_padding = p;
+                ac.f_normal = n;
+                ac.f_padding = p + x;
+                let mut rts = [runtime_of(&ac, &machines[0], 0, limit, 0, 0)];
+                let mut slots = [None];
+                let f = framework_over(&machines, &mut rts, &mut slots, &ac, Tape { w32: [0; T32], w64: [0; T64], c32: 0, c64: 0 });
+                let got = f.below_limit_padding(&f.runtime[0], &machines[0]);
+                let want = ref_padding_ok(p, n, allowed, pf, p + x, n, ff, limit);
+                if got {
+                    assert!(limit > 0, "C07(d): a padding action is allowed although the state limit is zero");
+                    assert!(want, "C02: padding allowed although neither the machine budget nor both fraction limits permit it");
+                } else {
+                    assert!(!want, "C05: padding denied although the documented limits permit it");
+                }
+                assert!(f.below_action_limits(&f.runtime[0], &machines[0]) == got, "C02: the padding predicate is the one applied to padding actions");
+                seen_allow_by_fracs |= got && p >= allowed && pf > 0.0 && ff > 0.0 && p > 0;
+                seen_deny_by_global |= !got && limit > 0 && p >= allowed && x > 0 && (pf == 0.0 || (p as f64) / ((p + n) as f64) < pf);
+                core::mem::forget(f);
+                x += 1;
+            }
+            n += 1;
+        }
+        p += 1;
+    }
+    kani::cover!(seen_allow_by_fracs, "allowed below both fractions beyond the budget");
+    kani::cover!(seen_deny_by_global, "denied by the framework-wide fraction alone");
+    core::mem::forget(machines);
+    core::mem::forget(sarr);
+}
+
+/// The blocking predicate against the statement for ALL fractions, budgets, limits, both replace
+/// settings and active / inactive blocking, with the time quantities case-split over small
+/// concrete values (accumulated 0..=2, ongoing 0..=2, elapsed since start 0..=3 microseconds,
+/// including "clock ran backwards" = 0 elapsed with blocked time > 0).
+#[kani::proof]
+#[kani::unwind(5)]
+fn k_below_blocking_small() {
+    let allowed: u64 = kani::any();
+    let bf: f64 = kani::any();
+    let ff: f64 = kani::any();
+    kani::assume(real_frac(bf) && real_frac(ff));
+    let limit: u64 = kani::any();
+    let replace: bool = kani::any();
+    let active: bool = kani::any();
+    let a = Action::BlockOutgoing { bypass: kani::any(), replace, timeout: dummy_dist(), duration: dummy_dist(), limit: any_opt_dist() };
+    const NT: Option<Vec<Trans>> = None;
+    let mut sarr = [state_from_parts(None, (None, None), [NT; EVENT_NUM])];
+    let machines = [one_state_machine(Some(a), &mut sarr, kani::any(), 0.0, allowed, bf)];
+    let mut ac = any_acct();
+    ac.f_block_frac = ff;
+    ac.f_block_active = active;
+    let mut seen_frac_deny = false;
+    let mut seen_allow = false;
+    let mut dur: u64 = 0;
+    while dur <= 2 {
+        let mut ongoing: u64 = 0;
+        while ongoing <= 2 {
+            let mut elapsed: u64 = 0;
+            while elapsed <= 3 {
+                // start = 10, now = 10 + elapsed, blocking started `ongoing` before now (saturating view: started may precede start)
+                ac.start = 10;
+                ac.now = 10 + elapsed;
+                ac.f_block_started = ac.now - ongoing.min(ac.now);
+                ac.f_block_dur = dur;
+                let mut rts = [runtime_of(&ac, &machines[0], 0, limit, 0, 0)];
+                let mut slots = [None];
+                let f = framework_over(&machines, &mut rts, &mut slots, &ac, Tape { w32: [0; T32], w64: [0; T64], c32: 0, c64: 0 });
+                let got = f.below_limit_blocking(&f.runtime[0], &machines[0]);
+                let want = ref_blocking_ok(&ac, allowed, bf, limit, replace);
+                if got {
+                    assert!(limit > 0, "C07(d): a blocking action is allowed although the state limit is zero");
+                    assert!(want, "C03: blocking allowed although it neither replaces active blocking nor stays within the budget or both fraction limits");
+                } else {
+                    assert!(!want, "C05: blocking denied although the documented limits permit it");
+                }
+                assert!(f.below_action_limits(&f.runtime[0], &machines[0]) == got, "C03: the blocking predicate is the one applied to blocking actions");
+                seen_frac_deny |= !got && limit > 0 && !(replace && active) && dur >= allowed && dur > 0 && elapsed > 0;
+                seen_allow |= got && dur >= allowed && bf > 0.0 && ff > 0.0 && dur > 0;
+                core::mem::forget(f);
+                elapsed += 1;
+            }
+            ongoing += 1;
+        }
+        dur += 1;
+    }
+    kani::cover!(seen_frac_deny, "denied by a fraction");
+    kani::cover!(seen_allow, "allowed below both fractions beyond the budget");
+    core::mem::forget(machines);
+    core::mem::forget(sarr);
+}
+
 /// timer / cancel / no action: the remaining arms of the limit dispatch
 #[kani::proof]
 #[kani::unwind(3)]
